@@ -221,6 +221,17 @@ pub fn c10(rep: &mut Report) {
                                 }
                             }
                         }
+                        // the first bytes on the next transport need not be a CONNECT / CONNACK exchange: whatever the
+                        // peer sends ahead of it is judged like on a fresh object (no limit, no timer of the
+                        // closed connection)
+                        for (c, t) in [(&mut a, &mut pre_a), (&mut b, &mut pre_b)] {
+                            let mut c2 = c.clone();
+                            recv(&mut c2, t, if as_client { AP::Pingresp { ver } } else { AP::Pingreq { ver } });
+                            let mut c3 = c.clone();
+                            recv(&mut c3, t, AP::Publish { ver, dup: false, qos: 1, retain: false, topic: b"a".to_vec(), pid: Some(7), props: vec![], payload: b"p".to_vec() });
+                            let mut c4 = c.clone();
+                            recv(&mut c4, t, AP::Publish { ver, dup: false, qos: 0, retain: false, topic: b"a".to_vec(), pid: None, props: vec![], payload: b"p".to_vec() });
+                        }
                         if w.cfg.offline && ver == Ver::V5 && w.m.ids.is_empty() {
                             for (c, t) in [(&mut a, &mut pre_a), (&mut b, &mut pre_b)] {
                                 let id = c.acquire().unwrap_or(0);
